@@ -538,3 +538,44 @@ Proof.
   intros i Hi. specialize (Hd i ltac:(lia)). rewrite Nat.add_0_r in Hd. change (Z.of_nat 0) with 0 in Hd.
   rewrite Z.sub_0_r in Hd. exact Hd.
 Qed.
+
+(* ------------------------------------------------------------------------------------------ *)
+(* finite runs of the composite are prefixes of the trace semantics                           *)
+(* ------------------------------------------------------------------------------------------ *)
+
+Fixpoint cstate_after (bc : B.cfg) (mc : M.cfg) (s : cst) (xs : list cinp) : cst :=
+  match xs with
+  | [] => s
+  | x :: xs' => cstate_after bc mc (cnext bc mc s x) xs'
+  end.
+
+Lemma cstate_after_app bc mc l1 : forall s l2,
+  cstate_after bc mc s (l1 ++ l2) = cstate_after bc mc (cstate_after bc mc s l1) l2.
+Proof. induction l1 as [|x l1 IH]; intros s l2; simpl; auto. Qed.
+
+Lemma cstate_after_firstn bc mc xs d t : (t <= length xs)%nat ->
+  cstate_after bc mc (cinit mc) (firstn t xs) = cstate_at bc mc (fun n => nth n xs d) t.
+Proof.
+  induction t as [|t IH]; intros Ht; [reflexivity|].
+  cbn [cstate_at]. rewrite <- IH by lia.
+  assert (E : firstn (S t) xs = firstn t xs ++ [nth t xs d]).
+  { apply MR.firstn_S_nth. apply nth_error_nth'. lia. }
+  rewrite E, cstate_after_app. reflexivity.
+Qed.
+
+Lemma crun_nth_gen bc mc xs : forall s t d, (t < length xs)%nat ->
+  nth_error (crun bc mc s xs) t =
+  Some (bridge_out bc mc (cstate_after bc mc s (firstn t xs)) (nth t xs d),
+        mux_out bc mc (cstate_after bc mc s (firstn t xs)) (nth t xs d)).
+Proof.
+  induction xs as [|x xs IH]; intros s t d Ht; simpl in *; [lia|].
+  destruct t as [|t]; [reflexivity|]. simpl. apply IH. lia.
+Qed.
+
+Theorem crun_is_out_at bc mc xs d t : (t < length xs)%nat ->
+  nth_error (crun bc mc (cinit mc) xs) t =
+  Some (wb_out_at bc mc (fun n => nth n xs d) t, elem_out_at bc mc (fun n => nth n xs d) t).
+Proof.
+  intros Ht. rewrite (crun_nth_gen bc mc xs (cinit mc) t d Ht).
+  unfold wb_out_at, elem_out_at. rewrite (cstate_after_firstn bc mc xs d t) by lia. reflexivity.
+Qed.
